@@ -43,13 +43,13 @@ func TestBoundedC13DatabaseAPI(t *testing.T) {
 	}
 	// take what arrived until pred says the operation is complete (or nothing arrives for a while)
 	collect := func(complete func(msgs []string) bool) []string {
-		deadline := time.After(2 * time.Second)
+		deadline := time.After(5 * time.Second)
 		for {
 			mu.Lock()
 			msgs := append([]string{}, inbox...)
 			mu.Unlock()
 			if complete(msgs) {
-				time.Sleep(5 * time.Millisecond) // a surplus reply would arrive now
+				time.Sleep(20 * time.Millisecond) // a surplus reply would arrive now
 				mu.Lock()
 				msgs = append([]string{}, inbox...)
 				inbox = nil
@@ -247,8 +247,16 @@ func TestBoundedC13DatabaseAPI(t *testing.T) {
 			if d := queryShape(sop, -1)(msgs); d != "" {
 				fail(fmt.Sprintf("qsub query part: %s; replies %q", d, msgs))
 			}
-		} else {
-			time.Sleep(50 * time.Millisecond) // let the subscription get registered
+		}
+		// wait until the subscription is registered (not a fixed sleep: slow machines)
+		for k := 0; k < 4000; k++ {
+			dbAPI.subsLock.Lock()
+			_, ok := dbAPI.subs[sop]
+			dbAPI.subsLock.Unlock()
+			if ok {
+				break
+			}
+			time.Sleep(500 * time.Microsecond)
 		}
 		expectNote := func(what, typ, k string) {
 			cases++
